@@ -29,7 +29,14 @@ ACodecOf(name) ==
     ELSE IF name = "opus" THEN "opus" ELSE IF name = "none" THEN "none" ELSE "invalid"
 
 (* input file classes: how the bytes were put on disk *)
-FileUsable(f) == f.enc = "hex"                \* even-length hexadecimal text of the frame bytes
+(* "text": the file content is given literally in f.text; it is hexadecimal text when, blanks (space, *)
+(* tab, CR, LF) removed, it is non-empty, of even length and made of hexadecimal digits only.       *)
+HexDigitVal(c) == IF c >= 48 /\ c <= 57 THEN c - 48 ELSE IF c >= 97 /\ c <= 102 THEN c - 87 ELSE IF c >= 65 /\ c <= 70 THEN c - 55 ELSE -1
+NoBlanks(t) == SelectSeq(t, LAMBDA c : c \notin {9, 10, 13, 32})
+HexText(t) == LET s == NoBlanks(t) IN s # << >> /\ Len(s) % 2 = 0 /\ \A i \in 1..Len(s) : HexDigitVal(s[i]) >= 0
+HexDecode(t) == LET s == NoBlanks(t) IN [i \in 1..(Len(s) \div 2) |-> 16 * HexDigitVal(s[2 * i - 1]) + HexDigitVal(s[2 * i])]
+FileUsable(f) == f.enc = "hex" \/ (f.enc = "text" /\ HexText(f.text) /\ HexDecode(f.text) = f.data)
+FileIllFormed(f) == f.enc = "text" /\ HexText(f.text) /\ HexDecode(f.text) # f.data      \* generator error: reported, never judged
 FileGiven(f) == f.enc # "absent"
 
 HasConfigC(vc, d) ==
@@ -55,6 +62,7 @@ MuxValid(o) ==
 
 (* Cases the statement leaves open ("valid combination" / "invalid parameter" is arguable): not judged *)
 MuxUnclear(o) ==
+    \/ FileIllFormed(o.video) \/ FileIllFormed(o.audio)
     \/ o.dry_run                                             \* a dry run checks existence only
     \/ (~FileGiven(o.audio) /\ (o.has_rate \/ o.has_ch) /\ ~(o.has_rate /\ o.has_ch))   \* stray audio parameters without audio input
     \/ (FileGiven(o.audio) /\ FileGiven(o.video) /\ ACodecOf(o.acodec) = "aac" /\ FileUsable(o.audio) /\ AdtsHeaderOnly(o.audio.data))
@@ -75,7 +83,7 @@ MuxSigs(e) ==
     \cup (IF e.exit = "timeout" THEN {CSig("Terminates", "mux", "timeout")} ELSE {})
 
 (* validate: 'valid' exactly when every given input exists and is non-empty even-length hex text *)
-InputValid(f) == f.enc = "hex" /\ f.data # << >>
+InputValid(f) == (f.enc = "hex" /\ f.data # << >>) \/ (f.enc = "text" /\ HexText(f.text))
 ValidateSigs(e) ==
     LET o == e.opts
         any == FileGiven(o.video) \/ FileGiven(o.audio)
